@@ -5,7 +5,7 @@ V = os.path.dirname(os.path.dirname(os.path.abspath(__file__)))
 
 CHECKS = {
  "C01": ("model_checking", "TLC model checking of the store model (refinement of the reference map) + TLC trace validation of real executions",
-         "Exhaustive for the bounded store model (MCWorld Inv_C01); every event of seeded random / scripted / model-derived histories on real Worlds is validated by TLC against the abstract effect of the operation. Right level: the property quantifies over histories; the model discharges it for all small histories and the trace validation ties the model's relation to the code step by step.",
+         "Exhaustive for the bounded store model (MCWorld Inv_C01); every event of seeded random / scripted / model-derived histories on real Worlds is validated by TLC against the abstract effect of the operation. Batches are built from columns (Batch::new) and through both entities! macro forms (component tuple + count, list of tuples, incl. the empty shape); registries of 1..24 components are exercised by RegN. Right level: the property quantifies over histories; the model discharges it for all small histories and the trace validation ties the model's relation to the code step by step.",
          "Bounded constants; harness logging and the read-only dump hook are trusted; rustc/TLC trusted.", "6 C01"),
  "C02": ("model_checking", "TLC model checking (identifier discipline) + TLC trace validation with probes of every identifier ever issued",
          "MCWorld Inv_C02 exhaustively (new ids unused, stale ids never resolve, across reuse by allocate and allocate_batch with batch <,=,> free list); on real Worlds contains/entry/Entries::entry are probed for every id ever issued in the lineage plus forged ids after every event.",
